@@ -99,10 +99,14 @@ def _prune(keep_dir):
         ds = [os.path.join(BUILD_ROOT, d) for d in os.listdir(BUILD_ROOT)]
     except FileNotFoundError:
         return
-    ds = [d for d in ds if os.path.isdir(d) and d != keep_dir]
+    ds = [d for d in ds if os.path.isdir(d) and d != keep_dir and not os.path.basename(d).startswith('work')]
     ds.sort(key=lambda d: os.path.getmtime(d), reverse=True)
+    now = time.time()
     for d in ds[3:]:
-        shutil.rmtree(d, ignore_errors=True)
+        # a build touched within the last six hours may belong to a check that is still running (another process, another
+        # VERIF_REPO): every use of a cached build refreshes its mtime
+        if now - os.path.getmtime(d) > 6 * 3600:
+            shutil.rmtree(d, ignore_errors=True)
 
 
 def build(variant='plain', hooks=True, quiet=False):
